@@ -109,6 +109,7 @@ pub struct Rep {
     case_events: u32,
     case_evals0: u64,
     case_event_cap: u32,
+    case_events_by_op: BTreeMap<String, u32>,
     case_viols_by_op: BTreeMap<String, u32>,
     pub case_tags: Vec<String>,
     cases_run: u64,
@@ -142,6 +143,7 @@ impl Rep {
             case_events: 0,
             case_evals0: 0,
             case_event_cap: EVENTS_PER_CASE,
+            case_events_by_op: BTreeMap::new(),
             case_viols_by_op: BTreeMap::new(),
             case_tags: Vec::new(),
             cases_run: 0,
@@ -175,6 +177,7 @@ impl Rep {
         self.case_events = 0;
         self.case_evals0 = self.evals;
         self.case_event_cap = EVENTS_PER_CASE;
+        self.case_events_by_op.clear();
         self.case_viols_by_op.clear();
         self.case_tags.clear();
         self.cases_run += 1;
@@ -267,9 +270,24 @@ impl Rep {
         self.line(j, true);
     }
 
+    /// op-aware variant used by `chk!`: for dumped inputs up to 25 events per operation
+    #[inline]
+    pub fn want_event_for(&self, op: &str) -> bool {
+        if self.case_event_cap > EVENTS_PER_CASE {
+            return self.case_events_by_op.get(op).copied().unwrap_or(0) < 25;
+        }
+        self.want_event()
+    }
+
     #[inline]
     pub fn want_event(&self) -> bool {
-        self.case_events < self.case_event_cap && (self.cases_run <= self.event_budget_cases || self.case_event_cap > EVENTS_PER_CASE)
+        if self.case_event_cap > EVENTS_PER_CASE {
+            return self.case_events < self.case_event_cap;
+        }
+        // default sampling: the 5th, 50th and 500th comparison of each of the first cases of a worker
+        // (spread over the battery instead of the three scalar queries it starts with)
+        let n = self.evals - self.case_evals0;
+        self.case_events < self.case_event_cap && self.cases_run <= self.event_budget_cases && (n == 5 || n == 50 || n == 500)
     }
 
     /// record up to `n` events of the running case (used for small inputs that are dumped in full,
@@ -280,6 +298,7 @@ impl Rep {
 
     pub fn event(&mut self, op: &str, args: String, got: String) {
         self.case_events += 1;
+        *self.case_events_by_op.entry(op.to_string()).or_insert(0) += 1;
         let j = J::obj()
             .set("t", "event")
             .set("idx", self.case_idx)
@@ -383,7 +402,7 @@ macro_rules! chk {
                 format!("{:?}", got),
                 $crate::report::kind_of(&got),
             );
-        } else if $rep.want_event() {
+        } else if $rep.want_event_for($op) {
             $rep.event($op, format!("{:?}", $args), format!("{:?}", got));
         }
         got
